@@ -70,7 +70,7 @@ func (r *run) judge(o outcome, leakFree bool) {
 
 	// evidence: signature = plan + outcome class; non-trivial iff a fault/context end really happened
 	// at its planned position, or a clean run had more items than mapper slots or a stalled function
-	nontrivial := r.faultHit.Load() == 1 || r.cancelParked.Load() != 0 || r.ctxHit.Load() == 1 || p.Ctx == ctxPre ||
+	nontrivial := r.faultHit.Load() == 1 || r.cancelParked.Load() != 0 || r.ctxHit.Load() == 1 || p.ctxBeforeCall() ||
 		(clean && p.Items > p.effWorkers()) || (timerCtx && isCtxErr(o.Err))
 	r.c.Sig(nontrivial, p.API, p.Items, p.Workers, p.NoWorkers, p.Fan, p.Red, p.Kind, p.At, p.Then, p.Ctx, p.CtxPos,
 		p.SecondKind, p.SecondAt, p.Inflight, o.Kind, leakFree)
